@@ -1,5 +1,5 @@
 use crate::*;
-use crate::serialization::utils::read_nint;
+use crate::serialization::utils::{read_nint, write_nint};
 
 impl cbor_event::se::Serialize for Int {
     fn serialize<'se, W: Write>(
@@ -7,7 +7,7 @@ impl cbor_event::se::Serialize for Int {
         serializer: &'se mut Serializer<W>,
     ) -> cbor_event::Result<&'se mut Serializer<W>> {
         if self.0 < 0 {
-            serializer.write_negative_integer(self.0 as i64)
+            write_nint(serializer, self.0)
         } else {
             serializer.write_unsigned_integer(self.0 as u64)
         }
